@@ -4,6 +4,13 @@ use vstd::prelude::*;
 use std::sync::Arc;
 use std::cmp::Ordering;
 //@@ INCLUDE _common/error_macros.rs
+// R4: pdf/src/primitive.rs `unexpected_primitive!`: same control flow (evaluates to Err(UnexpectedPrimitive{..}));
+// `stringify!($expected)` is replaced by a fixed string (payload text, R3)
+macro_rules! unexpected_primitive {
+    ($expected:ident, $found:expr) => (
+        Err(PdfError::UnexpectedPrimitive { expected: "", found: $found })
+    )
+}
 //@@ macro names
 //@@ macro numbers
 //@@ macro points
@@ -83,6 +90,21 @@ pub open spec fn intent_of_str(s: Seq<char>) -> Option<RenderingIntent> {
 }
 pub open spec fn intent_of(s: SmallString) -> Option<RenderingIntent> { intent_of_str(s.view()) }
 
+// every operation recorded before is still there, at its place
+pub open spec fn prefix_kept(before: Seq<Op>, after: Seq<Op>) -> bool {
+    after.len() >= before.len() && forall|j: int| 0 <= j < before.len() ==> #[trigger] after[j] == before[j]
+}
+// the operations appended by a call
+pub open spec fn appended(before: Seq<Op>, after: Seq<Op>) -> Seq<Op> {
+    Seq::new((after.len() - before.len()) as nat, |j: int| after[before.len() + j])
+}
+// `out` is exactly the sequence `e` (at most 4 operations per keyword)
+pub open spec fn same_ops(out: Seq<Op>, e: Seq<Op>) -> bool {
+    out.len() == e.len() && e.len() <= 4
+    && (e.len() > 0 ==> out[0] == e[0]) && (e.len() > 1 ==> out[1] == e[1])
+    && (e.len() > 2 ==> out[2] == e[2]) && (e.len() > 3 ==> out[3] == e[3])
+}
+
 //@@ INCLUDE ops/table_spec.rs
 
 // operands well-formed for the keyword: exactly the operands the table lists, each of the listed kind
@@ -148,6 +170,29 @@ fn inline_image(lexer: &mut Lexer, resolve: &impl Resolve) -> (r: Result<Arc<Ima
     ensures (r, *final(lexer)) == inline_image_spec(*old(lexer))
 { unimplemented!() }
 
+// the lexer and the object parser (pdf/src/parser): opaque to this unit; no assumption besides determinism of inline_image
+#[verifier::external_body] pub struct Substr { p: core::marker::PhantomData<()> }
+impl Substr {
+    #[verifier::external_body] pub fn as_str(&self) -> (r: Result<&str>) { unimplemented!() }
+}
+impl Lexer {
+    #[verifier::external_body] pub fn new(data: &[u8]) -> (r: Lexer) { unimplemented!() }
+    #[verifier::external_body] pub fn get_pos(&self) -> (r: usize) { unimplemented!() }
+    #[verifier::external_body] pub fn set_pos(&mut self, wanted_pos: usize) -> (r: Substr) { unimplemented!() }
+    #[verifier::external_body] pub fn next(&mut self) -> (r: Result<Substr>) { unimplemented!() }
+}
+pub struct ParseFlags { pub bits: u16 }
+impl ParseFlags { pub const ANY: ParseFlags = ParseFlags { bits: 0xffff }; }
+#[verifier::external_body]
+fn parse_with_lexer(lexer: &mut Lexer, r: &impl Resolve, flags: ParseFlags) -> (res: Result<Primitive>) { unimplemented!() }
+impl PdfError {
+    #[verifier::external_body] pub fn is_eof(&self) -> (r: bool) { unimplemented!() }
+}
+#[verifier::external_body]
+fn cmp_usize(a: usize, b: usize) -> (r: Ordering)
+    ensures (r is Less) == (a < b), (r is Equal) == (a == b), (r is Greater) == (a > b)
+{ a.cmp(&b) }
+
 impl Name {
     #[verifier::external_body]
     pub fn as_str(&self) -> (r: &str) ensures r@ == self.0.view() { unimplemented!() }
@@ -165,29 +210,16 @@ fn collect_numbers(s: &[Primitive]) -> (r: Result<Vec<f32>, PdfError>)
     ensures all_num(s@) ==> (r matches Ok(v) && v@ =~= nums_of(s@)), !all_num(s@) ==> r is Err
 { s.iter().map(|p| p.as_number()).collect::<Result<Vec<f32>, PdfError>>() }
 
-// pdf/src/primitive.rs accessors (abstract callees; see NOTES.md: the file has two `impl Primitive` blocks, which the
-// extractor cannot tell apart, so these five are env stubs with the contract their three-line bodies obviously have)
+#[verifier::external_body]
+fn vec_as_slice(v: &Vec<Primitive>) -> (r: &[Primitive]) ensures r@ == v@ { v }
+
 impl Primitive {
-    #[verifier::external_body]
-    pub fn as_integer(&self) -> (r: Result<i32>)
-        ensures match *self { Primitive::Integer(n) => r == Ok::<i32, PdfError>(n), _ => r is Err }
-    { unimplemented!() }
-    #[verifier::external_body]
-    pub fn as_number(&self) -> (r: Result<f32>)
-        ensures is_num(*self) ==> r == Ok::<f32, PdfError>(num_of(*self)), !is_num(*self) ==> r is Err
-    { unimplemented!() }
-    #[verifier::external_body]
-    pub fn as_array(&self) -> (r: Result<&[Primitive]>)
-        ensures match *self { Primitive::Array(v) => (r matches Ok(s) && s@ == v@), _ => r is Err }
-    { unimplemented!() }
-    #[verifier::external_body]
-    pub fn into_name(self) -> (r: Result<Name>)
-        ensures match self { Primitive::Name(s) => r == Ok::<Name, PdfError>(Name(s)), _ => r is Err }
-    { unimplemented!() }
-    #[verifier::external_body]
-    pub fn into_string(self) -> (r: Result<PdfString>)
-        ensures match self { Primitive::String(s) => r == Ok::<PdfString, PdfError>(s), _ => r is Err }
-    { unimplemented!() }
+//@@ Primitive::get_debug_name
+//@@ Primitive::as_integer
+//@@ Primitive::as_number
+//@@ Primitive::as_array
+//@@ Primitive::into_name
+//@@ Primitive::into_string
 }
 impl RenderingIntent {
 //@@ RenderingIntent::from_str
@@ -209,6 +241,7 @@ pub open spec fn front_nums(a: Seq<Primitive>, n: int) -> bool { a.len() >= n &&
 impl OpBuilder {
 //@@ OpBuilder::new
 //@@ OpBuilder::add
+//@@ OpBuilder::parse
 }
 }
 fn main(){}
